@@ -10,19 +10,20 @@ EXTENDS Integers, Sequences, FiniteSets, TLC
 
 CONSTANTS Reqs, KeyNames, ResolveTo, SigTypes, Digests, Sinks,
           MaxId,
-          Variant   \* "code" | "CloseTokensFirst" | "CacheByToken" | "AcceptWhileDraining"
+          Variant   \* "code" | "CloseTokensFirst" | "CacheByToken" | "ServeReturnsEarly"
 
 VARIABLES pc, params, used, amqp, file, sinkFailed,     \* SignServer
           srv,        \* "running" | "draining" | "drained" | "closed"
           tokensOpen,
           cache,      \* real key name -> [id, fresh]
           cur,        \* real key name -> current key id in the token
-          usedId      \* Reqs -> key id that signed the request (0 = none yet)
+          usedId,     \* Reqs -> key id that signed the request (0 = none yet)
+          serving     \* Daemon.Serve() has not returned yet (the serve command exits when it does)
 
 S == INSTANCE SignServer WITH Variant <- "code"
 
 RealKeys == {ResolveTo[k] : k \in KeyNames}
-vars == <<pc, params, used, amqp, file, sinkFailed, srv, tokensOpen, cache, cur, usedId>>
+vars == <<pc, params, used, amqp, file, sinkFailed, srv, tokensOpen, cache, cur, usedId, serving>>
 svars == <<pc, params, used, amqp, file, sinkFailed>>
 
 Slot(k) == IF Variant = "CacheByToken" THEN CHOOSE x \in RealKeys : TRUE ELSE k
@@ -33,11 +34,12 @@ Init ==
   /\ cache = [k \in RealKeys |-> [id |-> 0, fresh |-> FALSE, key |-> k]]
   /\ cur = [k \in RealKeys |-> 1]
   /\ usedId = [r \in Reqs |-> 0]
+  /\ serving = TRUE
 
 Accept(r, k, st, d) ==
   /\ srv = "running" \/ (Variant = "AcceptWhileDraining" /\ srv = "draining")
   /\ S!Recv(r, k, st, d)
-  /\ UNCHANGED <<srv, tokensOpen, cache, cur, usedId>>
+  /\ UNCHANGED <<srv, tokensOpen, cache, cur, usedId, serving>>
 
 \* signinit.Init -> Cache.GetKey (whole call under the cache mutex, hence one step) -> Sign
 GetKeyAndSign(r) ==
@@ -49,36 +51,43 @@ GetKeyAndSign(r) ==
           THEN /\ usedId' = [usedId EXCEPT ![r] = e.id] /\ UNCHANGED cache
           ELSE /\ usedId' = [usedId EXCEPT ![r] = cur[k]]
                /\ cache' = [cache EXCEPT ![Slot(k)] = [id |-> cur[k], fresh |-> TRUE, key |-> k]]
-  /\ UNCHANGED <<srv, tokensOpen, cur>>
+  /\ UNCHANGED <<srv, tokensOpen, cur, serving>>
 
 \* a request that reaches the token after it was closed fails
 SignOnClosedToken(r) ==
   /\ ~tokensOpen /\ pc[r] = "recv"
   /\ pc' = [pc EXCEPT ![r] = "failed"]
-  /\ UNCHANGED <<params, used, amqp, file, sinkFailed, srv, tokensOpen, cache, cur, usedId>>
+  /\ UNCHANGED <<params, used, amqp, file, sinkFailed, srv, tokensOpen, cache, cur, usedId, serving>>
 
-Sinks1(r, ok) == (S!PublishAmqp(r, ok) \/ S!AppendFile(r, ok)) /\ UNCHANGED <<srv, tokensOpen, cache, cur, usedId>>
-Respond(r) == S!WriteResponse(r) /\ UNCHANGED <<srv, tokensOpen, cache, cur, usedId>>
+Sinks1(r, ok) == (S!PublishAmqp(r, ok) \/ S!AppendFile(r, ok)) /\ UNCHANGED <<srv, tokensOpen, cache, cur, usedId, serving>>
+Respond(r) == S!WriteResponse(r) /\ UNCHANGED <<srv, tokensOpen, cache, cur, usedId, serving>>
 
 InFlight == {r \in Reqs : pc[r] \in {"recv", "signed", "amqpDone", "fileDone"}}
 
-ShutdownBegin == srv = "running" /\ srv' = "draining" /\ UNCHANGED <<svars, tokensOpen, cache, cur, usedId>>
-ShutdownDrained == srv = "draining" /\ InFlight = {} /\ srv' = "drained" /\ UNCHANGED <<svars, tokensOpen, cache, cur, usedId>>
+ShutdownBegin == srv = "running" /\ srv' = "draining" /\ UNCHANGED <<svars, tokensOpen, cache, cur, usedId, serving>>
+ShutdownDrained == srv = "draining" /\ InFlight = {} /\ srv' = "drained" /\ UNCHANGED <<svars, tokensOpen, cache, cur, usedId, serving>>
 CloseTokens ==
   /\ srv = "drained" \/ (Variant = "CloseTokensFirst" /\ srv = "draining")
   /\ tokensOpen' = FALSE /\ srv' = IF srv = "drained" THEN "closed" ELSE srv
-  /\ UNCHANGED <<svars, cache, cur, usedId>>
+  /\ UNCHANGED <<svars, cache, cur, usedId, serving>>
 
-Rotate(k) == cur[k] < MaxId /\ cur' = [cur EXCEPT ![k] = @ + 1] /\ UNCHANGED <<svars, srv, tokensOpen, cache, usedId>>
+\* Serve() returns only when the shutdown sequence has completed (errgroup: Shutdown runs inside the group)
+ServeReturn ==
+  /\ serving
+  /\ srv = "closed" \/ (Variant = "ServeReturnsEarly" /\ srv = "draining")
+  /\ serving' = FALSE
+  /\ UNCHANGED <<svars, srv, tokensOpen, cache, cur, usedId>>
+
+Rotate(k) == cur[k] < MaxId /\ cur' = [cur EXCEPT ![k] = @ + 1] /\ UNCHANGED <<svars, srv, tokensOpen, cache, usedId, serving>>
 Expire == /\ \E k \in RealKeys : cache[k].fresh
           /\ cache' = [k \in RealKeys |-> [cache[k] EXCEPT !.fresh = FALSE]]
-          /\ UNCHANGED <<svars, srv, tokensOpen, cur, usedId>>
+          /\ UNCHANGED <<svars, srv, tokensOpen, cur, usedId, serving>>
 
 Next ==
   \/ \E r \in Reqs, k \in KeyNames, st \in SigTypes, d \in Digests : Accept(r, k, st, d)
   \/ \E r \in Reqs : GetKeyAndSign(r) \/ SignOnClosedToken(r) \/ Respond(r)
   \/ \E r \in Reqs, ok \in BOOLEAN : Sinks1(r, ok)
-  \/ ShutdownBegin \/ ShutdownDrained \/ CloseTokens
+  \/ ShutdownBegin \/ ShutdownDrained \/ CloseTokens \/ ServeReturn
   \/ \E k \in RealKeys : Rotate(k)
   \/ Expire
 
@@ -95,6 +104,9 @@ Isolation == S!UsedIsRequested
 
 \* shutdown lets in-flight requests finish: the tokens are never closed under a request
 Drain == ~tokensOpen => InFlight = {}
+
+\* the process (Serve) outlives every in-flight request
+ProcessOutlivesRequests == ~serving => InFlight = {}
 
 \* an accepted request is never failed by the shutdown itself
 NoShutdownCasualty == \A r \in Reqs : pc[r] = "failed" => r \in sinkFailed
